@@ -741,7 +741,8 @@ class LegCharge:
             blockcharges = hdf5_loader.load(subpath + 'blockcharges')
             obj.slices = slices = np.zeros(obj.block_number + 1, dtype=np.intp)
             slices[:-1] = blockcharges[:, 0]
-            slices[-1] = blockcharges[-1, 1]
+            if obj.block_number > 0:  # (a leg without blocks has slices == [0])
+                slices[-1] = blockcharges[-1, 1]
             obj.charges = np.asarray(blockcharges[:, 2:], dtype=QTYPE, order='C')
         elif format == 'flat':
             obj.block_number = obj.ind_len
